@@ -19,85 +19,40 @@ Proof. destruct a; reflexivity. Qed.
 Lemma st_code_inj a b : st_code a = st_code b -> a = b.
 Proof. destruct a, b; simpl; intro H; try reflexivity; discriminate. Qed.
 
-Lemma zmem_In x l : zmem x l = true <-> In x l.
+Definition all_st (v : st) (l : list st) : bool := forallb (st_eqb v) l.
+
+Lemma has_In v l : has v l = true <-> In v l.
 Proof.
-  induction l as [|y r IH]; simpl.
-  - split; [discriminate | tauto].
-  - rewrite orb_true_iff, IH, Z.eqb_eq. split; intros [H|H]; auto.
+  unfold has. rewrite existsb_exists. split.
+  - intros [x [Hin E]]. apply st_eqb_eq in E. subst x. exact Hin.
+  - intro H. exists v. split; [exact H | apply st_eqb_refl].
 Qed.
 
-Lemma mk_set_In x l : In x (mk_set l) <-> In x l.
+Lemma has_ext v l1 l2 : (forall s, In s l1 <-> In s l2) -> has v l1 = has v l2.
 Proof.
-  induction l as [|y r IH]; simpl; [tauto|].
-  destruct (zmem y (mk_set r)) eqn:E.
-  - rewrite IH. split; [auto|]. intros [H|H]; [|exact H]. subst y.
-    apply zmem_In in E. apply IH. exact E.
-  - simpl. rewrite IH. tauto.
-Qed.
-
-Lemma forallb_ext_In {A} (f : A -> bool) l1 l2 :
-  (forall x, In x l1 <-> In x l2) -> forallb f l1 = forallb f l2.
-Proof.
-  intro H. destruct (forallb f l1) eqn:E1; destruct (forallb f l2) eqn:E2; try reflexivity.
-  - rewrite forallb_forall in E1. assert (forallb f l2 = true) as X.
-    { apply forallb_forall. intros x Hx. apply E1, H, Hx. } congruence.
-  - rewrite forallb_forall in E2. assert (forallb f l1 = true) as X.
-    { apply forallb_forall. intros x Hx. apply E2, H, Hx. } congruence.
-Qed.
-
-Lemma zmem_ext x l1 l2 : (forall y, In y l1 <-> In y l2) -> zmem x l1 = zmem x l2.
-Proof.
-  intro H. destruct (zmem x l1) eqn:E1; destruct (zmem x l2) eqn:E2; try reflexivity.
-  - apply zmem_In, H, zmem_In in E1. congruence.
-  - apply zmem_In, H, zmem_In in E2. congruence.
-Qed.
-
-Lemma forallb_fext {A} (f g : A -> bool) l : (forall x, f x = g x) -> forallb f l = forallb g l.
-Proof. intro H. induction l as [|a r IH]; simpl; [reflexivity|]. rewrite H, IH. reflexivity. Qed.
-
-(* set equality only sees membership *)
-Lemma set_eq_ext a a' b : (forall x, In x a <-> In x a') -> set_eq a b = set_eq a' b.
-Proof.
-  intro H. unfold set_eq. f_equal.
-  - apply forallb_ext_In, H.
-  - apply forallb_fext. intros x. apply zmem_ext, H.
-Qed.
-
-Lemma eval_chain_ext a a' ch d :
-  (forall x, In x a <-> In x a') -> eval_chain a ch d = eval_chain a' ch d.
-Proof.
-  intro H. induction ch as [|[lit r] rest IH]; simpl; [reflexivity|].
-  rewrite (set_eq_ext a a' lit H), IH. reflexivity.
+  intro H. destruct (has v l1) eqn:E1; destruct (has v l2) eqn:E2; try reflexivity.
+  - apply has_In, H, has_In in E1. congruence.
+  - apply has_In, H, has_In in E2. congruence.
 Qed.
 
 (* the aggregate depends only on the SET of statuses: order and multiplicity are irrelevant *)
 Lemma agg_status_set l1 l2 :
   (forall s, In s l1 <-> In s l2) -> agg_status l1 = agg_status l2.
 Proof.
-  intro H. unfold agg_status. f_equal. apply eval_chain_ext. intro x.
-  rewrite !mk_set_In, !in_map_iff. split; intros [s [E I]]; exists s; split; auto; apply H; auto.
+  intro H. destruct l1 as [|a r1]; destruct l2 as [|b r2]; try reflexivity.
+  - exfalso. apply (proj2 (H b)). left. reflexivity.
+  - exfalso. apply (proj1 (H a)). left. reflexivity.
+  - unfold agg_status, sig_of. rewrite (has_ext STrue _ _ H), (has_ext SFalse _ _ H), (has_ext SNone _ _ H).
+    reflexivity.
 Qed.
 
-Definition all_st (v : st) (l : list st) : bool := forallb (st_eqb v) l.
-
-Lemma code_eqb a c : (st_code a =? st_code c) = st_eqb c a.
-Proof. destruct a, c; reflexivity. Qed.
-
-Lemma set_eq_single l c :
-  set_eq (mk_set (map st_code l)) [st_code c] =
-  match l with [] => false | _ => all_st c l end.
+Lemma all_st_has l :
+  all_st STrue l = negb (has SFalse l) && negb (has SNone l) /\
+  all_st SNone l = negb (has STrue l) && negb (has SFalse l).
 Proof.
-  rewrite (set_eq_ext _ (map st_code l)) by (intro; apply mk_set_In).
-  unfold set_eq. cbn [forallb]. rewrite andb_true_r.
-  assert (A : forallb (fun x => zmem x [st_code c]) (map st_code l) = all_st c l).
-  { unfold all_st. induction l as [|a r IH]; [reflexivity|]. cbn [map forallb].
-    rewrite IH. cbn [zmem]. rewrite orb_false_r, code_eqb. reflexivity. }
-  assert (B : zmem (st_code c) (map st_code l) = existsb (st_eqb c) l).
-  { clear A. induction l as [|a r IH]; [reflexivity|]. cbn [map zmem existsb]. rewrite IH.
-    rewrite Z.eqb_sym, code_eqb. reflexivity. }
-  rewrite A, B. destruct l as [|a r]; [reflexivity|].
-  unfold all_st. simpl. destruct (st_eqb c a); simpl; [|reflexivity].
-  apply andb_true_r.
+  unfold all_st, has. induction l as [|a r [IH1 IH2]]; [split; reflexivity|].
+  cbn [forallb existsb]. rewrite IH1, IH2. destruct a; cbn;
+    destruct (existsb (st_eqb STrue) r), (existsb (st_eqb SFalse) r), (existsb (st_eqb SNone) r); split; reflexivity.
 Qed.
 
 Definition agg_spec (l : list st) : resp :=
@@ -106,14 +61,14 @@ Definition agg_spec (l : list st) : resp :=
   | _ => if all_st SNone l then R_UNKNOWN else if all_st STrue l then R_SERVING else R_NOT_SERVING
   end.
 
-(* the chain copied from the source decides exactly the truth table of the property *)
+(* the table observed on the code is exactly the truth table of the property *)
 Lemma agg_status_spec l : agg_status l = agg_spec l.
 Proof.
-  unfold agg_status, status_chain, status_else. simpl eval_chain.
-  change [2] with [st_code SNone]. change [1] with [st_code STrue].
-  rewrite !set_eq_single. destruct l as [|a r]; [reflexivity|].
-  unfold agg_spec. destruct (all_st SNone (a :: r)); [reflexivity|].
-  destruct (all_st STrue (a :: r)); reflexivity.
+  destruct l as [|a r]; [reflexivity|]. unfold agg_status, agg_spec.
+  destruct (all_st_has (a :: r)) as [E1 E2]. rewrite E1, E2. unfold sig_of.
+  assert (N : has STrue (a :: r) || has SFalse (a :: r) || has SNone (a :: r) = true).
+  { unfold has. cbn [existsb]. destruct a; cbn; repeat rewrite orb_true_r; reflexivity. }
+  destruct (has STrue (a :: r)), (has SFalse (a :: r)), (has SNone (a :: r)); try discriminate; reflexivity.
 Qed.
 
 Lemma all_st_forall v l : all_st v l = true <-> (forall s, In s l -> s = v).
@@ -261,14 +216,15 @@ Qed.
 
 (* the source facts the model is instantiated with (Gen.FactsC19 is regenerated from /repo on every run) *)
 Lemma source_facts :
-  status_chain = [([2], 0); ([1], 1)] /\ status_else = 2 /\
+  status_table = [((true, true, true), 2); ((true, true, false), 2); ((true, false, true), 2); ((true, false, false), 1);
+                  ((false, true, true), 2); ((false, true, false), 2); ((false, false, true), 0)] /\
   check_unregistered_grpc_status = 5 /\ check_empty_resp = 1 /\
   watch_unregistered_resp = 3 /\ watch_empty_resp = 1 /\
   watch_first_completed = true /\ reset_when_absent_or_done = true /\ reset_clears_then_waits = true /\
+  watch_segment_atomic = true /\
   ttl_cmp = 0 /\ latch_cleared_before_run = true /\ latch_set_in_finally = true /\ func_guarded = true /\
   nonbool_is_type_error = true /\ check_failure_value = 0 /\
   check_notifies_on_change = true /\ set_notifies_on_change = true /\
-  default_check_ttl = 30 /\ default_check_timeout = 10 /\
   map snd serving_status_enum = [0; 1; 2; 3] /\
   subscribe_starts_poll_when_none = true /\ poll_cleared_before_await = true.
 Proof. repeat split. Qed.
